@@ -213,6 +213,8 @@ class Probe:
                     return self.ev(ce, {})
                 if self.find_fn(segs) is not None:
                     return ("fnref_path", e, tuple(self.cur[-1].module) if self.cur else self.module)
+                if segs[0] in self.f.structs or (segs[0] == "Self" and self.selfty):
+                    return ("enum", self.selfty if segs[0] == "Self" else segs[0], [])  # tuple-struct constructor as a function
                 raise NoEval("name %s" % segs[0])
             if segs[-2] in self.flags and segs[-1] in self.flags[segs[-2]]:
                 return self.flags[segs[-2]][segs[-1]]
